@@ -26,11 +26,24 @@ VARIANTS = {
     'pretty_blade': {'pretty_blade': 'E'},
 }
 ALLOPS = ops.BINARY + ops.UNARY
+# multi-step expressions: intermediate results (with whatever zeros / key sets the option setting produces) feed the next operator
+EXPRS = {
+    '(a*b).grade(2)*c': lambda a, b, c, d: (a * b).grade(2) * c,
+    '(a^b)|c': lambda a, b, c, d: (a ^ b) | c,
+    '(a*b).grade(1,2)+c': lambda a, b, c, d: (a * b).grade(1, 2) + c,
+    '(a+b).normsq()': lambda a, b, c, d: (a + b).normsq(),
+    '~(a*b)-c*a': lambda a, b, c, d: ~(a * b) - c * a,
+    '(a>>b).grade(d-1)^c': lambda a, b, c, d: (a >> b).grade(max(d - 1, 0)) ^ c,
+    '(a*b).hodge()&c': lambda a, b, c, d: (a * b).hodge() & c,
+    '(a.cp(b))*(a.acp(b))': lambda a, b, c, d: a.cp(b) * a.acp(b),
+    '((a*b).grade(0,2)).inv()*c': lambda a, b, c, d: ((a * b).grade(0, 2)).inv() * c,
+}
 
 
 def floors(tier):
     f = {'distinct_nontrivial': 2500 if tier == 'quick' else 40000, 'graded_results_checked_complete': 500,
          'graded_degenerate_cases': 150, 'sympy_symbol_cases': 60}
+    f['multi_step_expressions'] = 150
     for v in VARIANTS:
         f['variant_' + v] = 60 if v == 'sympy-symbols' else 300
     for o in ALLOPS:
@@ -46,6 +59,8 @@ def plan(tier, seed):
             U.append({'cfg': c, 'per_op': 2, 'sympy': gen.cfg_dim(c) <= 2})
         for c in rng.sample(gen.pqr_all(4, 4), 4):
             U.append({'cfg': c, 'per_op': 1, 'sympy': False, 'elementary_only': True})
+        for c in ({'p': 3, 'q': 0, 'r': 1}, {'p': 4, 'q': 0, 'r': 0}, {'p': 2, 'q': 1, 'r': 1}):
+            U.append({'cfg': c, 'per_op': 2, 'sympy': False, 'composite_only': True})
         U.append({'cfg': {'signature': [1, 0, -1]}, 'per_op': 2, 'sympy': False})
         nshards = 16
     else:
@@ -76,9 +91,17 @@ def run_shard(shard, ctx):
             if a_ is not None:
                 algs[vn] = a_
         ctx.count('signatures')
+        if base.d <= 3 or unit.get('composite_only'):
+            for en in EXPRS:
+                for _ in range(2 if ctx.tier == 'quick' else 6):
+                    if ctx.out_of_time():
+                        return
+                    expr_case(ctx, base, algs, cfg, name, en)
         for op in ALLOPS:
             if unit.get('elementary_only') and op not in ops.ELEMENTARY_BIN + ops.ELEMENTARY_UN:
                 ctx.count('op_' + op, 0)
+                continue
+            if unit.get('composite_only') and op in ops.ELEMENTARY_BIN + ops.ELEMENTARY_UN:
                 continue
             for _ in range(unit['per_op']):
                 if ctx.out_of_time():
@@ -169,4 +192,51 @@ def one_case(ctx, base, algs, cfg, name, op, unit):
             grades = tuple(sorted({bin(k).count('1') for k in ks}))
             if ks and ks != alg.indices_for_grades[grades]:
                 ctx.violation('graded mode result does not store complete grades', cid + ['complete'], result_keys=list(ks),
+                              expected_keys=list(alg.indices_for_grades[grades]), **wit)
+
+
+def expr_case(ctx, base, algs, cfg, name, en):
+    rng = ctx.rng
+    to = CASE_TIMEOUT[ctx.tier]
+    f = EXPRS[en]
+    pats = [grade_block_keys(base, rng, 'sw') for _ in range(3)]
+    vals = [[gen.small_frac(rng, nonzero=(rng.random() < 0.6)) for _ in ks] for gs, ks in pats]
+
+    def run(alg):
+        mvs = [alg.multivector(keys=tuple(ks), values=list(v)) for (gs, ks), v in zip(pats, vals)]
+        return f(*mvs, alg.d)
+    st0, r0 = ctx.guarded(to, run, base)
+    if st0 != 'ok':
+        if st0 == 'exc':
+            ctx.note_raised(r0, 'expr-default')
+        return
+    g0 = mv_dict(r0)
+    for vn, alg in algs.items():
+        if vn == 'sympy-symbols' and base.d > 2:
+            continue
+        cid = [name, 'expr', en, [list(gs) for gs, _ in pats], [[str(v) for v in vs] for vs in vals], vn]
+        if not ctx.want(cid):
+            continue
+        st, r = ctx.guarded(to * 2, run, alg)
+        if st == 'timeout':
+            continue
+        ctx.count('multi_step_expressions')
+        ctx.count('variant_' + vn)
+        ctx.case(cid)
+        wit = dict(config=cfg, expression=en, grades=[list(gs) for gs, _ in pats], values=[[str(v) for v in vs] for vs in vals], variant=vn,
+                   r=base.r, graded='graded' in vn)
+        if st == 'exc':
+            ctx.violation('call succeeds with default options but raises with this option setting', cid,
+                          error=f'{type(r).__name__}: {str(r)[:200]}', exc_type=type(r).__name__, op='expr', **wit)
+            continue
+        g1 = mv_dict(r)
+        bad = elem_diff(g0, g1)
+        if bad:
+            ctx.violation('option setting changes the result', cid, op='expr', blades=[base.bin2canon[k] for k in bad[:6]],
+                          default_result=show_elem({k: g0.get(k, 0) for k in bad[:4]}), variant_result=show_elem({k: g1.get(k, 0) for k in bad[:4]}), **wit)
+        if 'graded' in vn:
+            ks = tuple(r.keys())
+            grades = tuple(sorted({bin(k).count('1') for k in ks}))
+            if ks and ks != alg.indices_for_grades[grades]:
+                ctx.violation('graded mode result does not store complete grades', cid + ['complete'], op='expr', result_keys=list(ks),
                               expected_keys=list(alg.indices_for_grades[grades]), **wit)
